@@ -162,12 +162,13 @@ class P:
                                                             self.txt(m["kind"]), self.hx(m["url"]))
                                    for m in o.get("mails") or [])
         smss = "[%s]" % "; ".join("(mkSms %s %s)" % (self.hx(s["to"]), self.hx(s["text"])) for s in o.get("sms") or [])
+        tried = "[%s]" % "; ".join("(mkSms %s %s)" % (self.hx(s["to"]), self.hx(s["text"])) for s in o.get("sms_tried") or [])
         calls = "[%s]" % "; ".join(CALLS[c] for c in o.get("calls") or [])
         logs = "[%s]" % "; ".join(self.sym(l) for l in o.get("logs") or [])
-        return "(mkIobs %s %s %s %s %s %s %s %s %s %s %s %s %s %s)" % (
+        return "(mkIobs %s %s %s %s %s %s %s %s %s %s %s %s %s %s %s)" % (
             z(r.get("status", 0)), self.txt(canon_loc(r.get("location", ""))), self.txt(r.get("page", "")), data,
             b(bool(r.get("panic"))), b(o.get("err", False)), self.amap_hex(o.get("sess") or {}),
-            self.amap_hex(o.get("cook") or {}), users, rm, mails, smss, calls, logs)
+            self.amap_hex(o.get("cook") or {}), users, rm, mails, smss, calls, logs, tried)
 
 
 def canon_loc(loc):
